@@ -24,7 +24,7 @@ func init() {
 		ID:    "C14",
 		Level: "exploration",
 		Rule: "E1 bounded-exhaustive enumeration: (join) per width w in {1,2,4,8,16,32,64}: every value list of length ≤5 over {0,1,^0,0xa5a5…,1<<63}, and for a set of lengths up to 192/w+1 every list that is 0 everywhere except ≤2 positions taken from the non-zero alphabet values: len(Join) = ceil(len·w/64), Getw(result,i,w) = low w bits of values[i] for every i, popcount(result) = Σ popcount(low w bits) (no other bit set); " +
-			"(slice) every bitmap of ≤3 words over {0,^0,1,1<<63,0xdeadbeefcafebabe} × every 0 ≤ from ≤ to ≤ 64·len: result length ceil((to-from)/64), bit j = input bit from+j, all other bits 0, input unchanged. A case is one Join call with all its Getw probes, or one Slice call; non-trivial when some value/bit is non-zero and the list/range is non-empty.",
+			"(slice) every bitmap of ≤3 words over {0,^0,1,1<<63,0xdeadbeefcafebabe} × every 0 ≤ from ≤ to ≤ 64·len: result length ceil((to-from)/64), bit j = input bit from+j, all other bits 0, input unchanged. (long) Join on lists filling about 20 (thorough 70) words with ≤2 non-zero values at positions within 1 of a word boundary, and Slice on 20/70-word bitmaps (zero or all-ones with one island at every position) × every range with both ends within 1 of a word boundary. A case is one Join call with all its Getw probes, or one Slice call; non-trivial when some value/bit is non-zero and the list/range is non-empty.",
 		Assumptions: []string{"other values / word patterns and longer lists are not enumerated"},
 		Run:         c14Run,
 		Judge:       mc.JudgeOf(c14Judge),
@@ -221,6 +221,7 @@ func c14Run(c *mc.Ctx) {
 		c.Add("join_calls", evals)
 		c.Add("join_long_lists", evals)
 	})
+	c14Long(c)
 	// (slice)
 	alpha := []uint64{0, ^uint64(0), 1, 1 << 63, 0xdeadbeefcafebabe}
 	var bms [][]uint64
@@ -266,6 +267,109 @@ func c14Run(c *mc.Ctx) {
 		if bi == len(bms)/2 {
 			c.ForceSample(map[string]interface{}{"fn": "Slice", "words": gen.Words(w), "ranges": int64(nb+1) * int64(nb+2) / 2})
 		}
+	})
+}
+
+// c14Long: Join on lists that fill about 20 words (≤2 non-zero values at word-boundary
+// positions) and Slice on 20-word bitmaps with ranges on and around word boundaries.
+func c14Long(c *mc.Ctx) {
+	nz := c14Vals[1:]
+	words := c.Pick(20, 70)
+	for _, w := range c14Widths {
+		w := w
+		per := int(64 / w)
+		L := words*per + 1
+		var pos []int
+		seen := map[int]bool{}
+		for k := 0; k <= words; k++ {
+			for _, d := range []int{-1, 0, 1} {
+				if x := k*per + d; x >= 0 && x < L && !seen[x] {
+					seen[x] = true
+					pos = append(pos, x)
+				}
+			}
+		}
+		np, nv := int64(len(pos)), int64(len(nz))
+		c.Expect(1 + np*nv + np*(np-1)/2*nv*nv)
+		c.Par(len(pos)+1, func(ai int) {
+			if c.TooMany() {
+				return
+			}
+			vals := make([]uint64, L)
+			var evals int64
+			try := func() {
+				if g, wnt := c14JoinOne(vals, w); g != wnt {
+					c.Fail(3<<50|int64(w)<<40|int64(ai)<<20|evals, "Join", "Join", c14Case{W: w, Vals: append(gen.Words(nil), vals...)}, g, wnt)
+				}
+				evals++
+			}
+			if ai == len(pos) {
+				try()
+			} else {
+				a := pos[ai]
+				for _, va := range nz {
+					vals[a] = va
+					try()
+					for _, b := range pos[ai+1:] {
+						for _, vb := range nz {
+							vals[b] = vb
+							try()
+						}
+						vals[b] = 0
+					}
+				}
+			}
+			c.Count(evals, evals)
+			c.Add("join_calls", evals)
+			c.Add("join_long_lists", evals)
+		})
+	}
+	// Slice on long bitmaps
+	L := words
+	var bms [][]uint64
+	ones := make([]uint64, L)
+	for i := range ones {
+		ones[i] = ^uint64(0)
+	}
+	bms = append(bms, make([]uint64, L), ones)
+	for p := 0; p < L; p++ {
+		for _, a := range []uint64{1, 1 << 63, 0xdeadbeefcafebabe} {
+			w := make([]uint64, L)
+			w[p] = a
+			bms = append(bms, w)
+			w2 := append([]uint64(nil), ones...)
+			w2[p] = ^a
+			bms = append(bms, w2)
+		}
+	}
+	nb := int32(64 * L)
+	var pts []int32
+	for k := int32(0); k <= int32(L); k++ {
+		for _, d := range []int32{-1, 0, 1} {
+			if x := 64*k + d; x >= 0 && x <= nb {
+				pts = append(pts, x)
+			}
+		}
+	}
+	np := int64(len(pts))
+	c.Expect(int64(len(bms)) * np * (np + 1) / 2)
+	c.Par(len(bms), func(bi int) {
+		if c.TooMany() {
+			return
+		}
+		w := bms[bi]
+		var evals int64
+		for fi, from := range pts {
+			for _, to := range pts[fi:] {
+				if g, wnt := c14SliceOne(w, from, to); g != wnt {
+					c.Fail(4<<50|int64(bi)<<32|int64(from)<<16|int64(to), "Slice", "Slice", c14Case{Words: append(gen.Words(nil), w...), From: from, To: to}, g, wnt)
+				}
+				evals++
+			}
+		}
+		c.Count(evals, evals)
+		c.Add("slice_calls", evals)
+		c.Add("slice_long_calls", evals)
 	})
 }
 
